@@ -41,6 +41,9 @@ if mods:
         'LbzVerif.Props.C01.Roundtrip.roundtrip_naive',
         'LbzVerif.Props.C01.Roundtrip.choicesOK_satisfiable',
         'LbzVerif.Props.C01.Roundtrip.roundtrip_sched_naive',
+        'LbzVerif.Props.C01.Lbzip2.expand_compress',
+        'LbzVerif.Props.C01.Lbzip2.expand_compress_naive',
+        'LbzVerif.Props.C01.Lbzip2.sched_roundtrip',
     ])
 inproc.run_libs(ck, ['w10_mtf', 'w11_prefix', 'w16_transmit', 'w23_roundtrip'])
 exe = ck.build_lbzip2(asan=False)
